@@ -1,6 +1,6 @@
 SPECIFICATION Spec
 CONSTANTS
-  Dev_h12 = TRUE
+  Dev_h12 = FALSE
   Dev_h13 = TRUE
   Dev_t127 = TRUE
   Dev_mdict = TRUE
